@@ -2,12 +2,17 @@ package checks
 
 import (
 	"bytes"
+	"context"
 	"fmt"
 	"math/rand"
+	"net"
+	"sync"
 	"testing"
+	"time"
 
 	"verifharness/eng"
 	"verifharness/mon"
+	"verifharness/sim"
 
 	"github.com/lightninglabs/lightning-node-connect/mailbox"
 )
@@ -16,13 +21,13 @@ func TestC02(t *testing.T) {
 	mon.Main(t, mon.Check{
 		ID:          "C02",
 		Level:       "exploration",
-		Rule:        "two real noise Machines after a real XX or KK handshake; the writer's records are captured (18-byte header record + body record), an adversary edits the byte stream, and the reader calls ReadMessage until the stream is exhausted, continuing after errors. Case kinds: (F) every single-bit flip of every byte of a 3-record stream (sizes drawn from {0,1,2,15,16,17,1000}), exhaustive per stream; (R) PRNG scripts of 1-5 edits from {flip, truncate at any offset, drop record / header / body, duplicate, swap adjacent, replay earlier record, reflect a record of the opposite direction (same index or another), inject random bytes, splice header of one record onto the body of another} over 3-12 records of sizes {0,1,2,15,16,17,1000,65535}; (X) targeted: replay of record i in place of record 500+i (across the key rotation), reflection of the reader's own k-th record at position k (k < 6, and k >= 500 after both directions have rotated their keys), a record of an unrelated session at the same index, and header/body type confusion with 2-byte records whose plaintext is a valid length. Oracle: the list of plaintexts returned without error is a prefix of the list the authentic peer wrote in that direction (byte-exact), whatever happens after the first error. Non-trivial = the edit changed the byte stream; distinct = (kind, pattern, direction, script).",
+		Rule:        "two real noise Machines after a real XX or KK handshake; the writer's records are captured (18-byte header record + body record), an adversary edits the byte stream, and the reader calls ReadMessage until the stream is exhausted, continuing after errors. Case kinds: (F) every single-bit flip of every byte of a 3-record stream (sizes drawn from {0,1,2,15,16,17,1000}), exhaustive per stream; (R) PRNG scripts of 1-5 edits from {flip, truncate at any offset, drop record / header / body, duplicate, swap adjacent, replay earlier record, reflect a record of the opposite direction (same index or another), inject random bytes, splice header of one record onto the body of another} over 3-12 records of sizes {0,1,2,15,16,17,1000,65535}; (X) targeted: replay of record i in place of record 500+i (across the key rotation), reflection of the reader's own k-th record at position k (k < 6, and k >= 500 after both directions have rotated their keys), a record of an unrelated session at the same index, and header/body type confusion with 2-byte records whose plaintext is a valid length. Oracle: the list of plaintexts returned without error is a prefix of the list the authentic peer wrote in that direction (byte-exact), whatever happens after the first error. Non-trivial = the edit changed the byte stream; distinct = (kind, pattern, direction, script). (N) the same adversary at the connection level: a NoiseGrpcConn pair (over a ProxyConn) or a NoiseConn pair after a real handshake, 3-7 Writes of sizes {0,1,15,16,17,1000,32767,32768,40000,65535}, one edit (flip, drop, dup, truncate, inject, swap, replay, reflect a record of the opposite direction) of one transport write (header or body), the reader calling Read with buffers from 1 byte to 100000 bytes and continuing after errors: the bytes returned must stay a prefix of the bytes written.",
 		Assumptions: []string{"computational security of ChaCha20-Poly1305 is not judged; only what the reader returns is"},
 		NCases: func(tier string) int {
 			if tier == "thorough" {
-				return 6000
+				return 6000 + 1500
 			}
-			return 360
+			return 360 + 60
 		},
 		MinEvals: 100,
 		Run:      runC02,
@@ -108,7 +113,176 @@ func (tr c02Trial) setup(rng *rand.Rand, revCount int) (reader *mailbox.Machine,
 	return r, recs, rev, err
 }
 
+// runC02Conn: the same adversary one layer up, where applications read: two
+// real secured connections (NoiseGrpcConn over a ProxyConn, or NoiseConn) after
+// a real handshake; the writer calls Write with PRNG sizes, the adversary edits
+// the transport writes (a record is a header write and a body write), and the
+// reader calls Read with PRNG buffer sizes from 1 byte to more than a record,
+// continuing after the first error. Every byte returned must continue the
+// prefix of what the peer wrote in that direction.
+func runC02Conn(c *mon.Case) {
+	rng := c.Rng
+	variant := []string{"G", "T"}[rng.Intn(2)]
+	pass := eng.Entropy(rng)
+	da, db, a2b, b2a := sim.NewDuplexPair()
+	var wconn, rconn net.Conn
+	var ce, se error
+	var wg sync.WaitGroup
+	wg.Add(2)
+	switch variant {
+	case "G":
+		cp := eng.NewMboxParty(eng.NewKey(rng), nil, pass, nil, 0, 2)
+		sp := eng.NewMboxParty(eng.NewKey(rng), nil, pass, []byte("auth"), 0, 2)
+		go func() {
+			defer wg.Done()
+			wconn, _, ce = cp.Noise.ClientHandshake(context.Background(), "", &fakeProxy{da})
+		}()
+		go func() { defer wg.Done(); rconn, _, se = sp.Noise.ServerHandshake(&fakeProxy{db}) }()
+	default:
+		keyC, keyS := eng.NewKey(rng), eng.NewKey(rng)
+		go func() {
+			defer wg.Done()
+			var cc *mailbox.NoiseConn
+			cc, ce = mailbox.Dial(keyC, &net.TCPAddr{IP: net.IPv4(127, 0, 0, 1), Port: 1}, pass, time.Second,
+				func(network, addr string, timeout time.Duration) (net.Conn, error) { return &pipeConn{da}, nil })
+			if ce == nil {
+				wconn = cc
+			}
+		}()
+		go func() {
+			defer wg.Done()
+			cd := mailbox.NewConnData(keyS, nil, pass, []byte("auth"), nil, nil)
+			var sm *mailbox.Machine
+			sm, se = mailbox.NewBrontideMachine(&mailbox.BrontideMachineConfig{
+				Initiator: false, HandshakePattern: cd.HandshakePattern(), ConnData: cd,
+				MinHandshakeVersion: mailbox.MinHandshakeVersion, MaxHandshakeVersion: mailbox.MaxHandshakeVersion,
+			})
+			if se == nil {
+				se = sm.DoHandshake(db)
+			}
+			if se != nil {
+				db.In.Close()
+				db.Out.Close()
+				return
+			}
+			rconn = mailbox.VerifNewNoiseConn(&pipeConn{db}, sm)
+		}()
+	}
+	wg.Wait()
+	if ce != nil || se != nil {
+		c.Shard.Inconc(fmt.Sprintf("conn slice: handshake failed: %v / %v", ce, se))
+		return
+	}
+	// client -> server carries the stream under attack; a few records of
+	// the opposite direction give the adversary something to reflect
+	for i := 0; i < 2; i++ {
+		if _, err := rconn.Write(c02Plain(rng, 'r', i, 40)); err != nil {
+			c.Shard.Inconc("conn slice: reverse write failed: " + err.Error())
+			return
+		}
+	}
+	reverse := append([][]byte{}, b2a.Written[len(b2a.Written)-4:]...)
+	sizes := []int{0, 1, 15, 16, 17, 1000, 32767, 32768, 40000, 65535}
+	nw := 3 + rng.Intn(5)
+	var stream []byte
+	var ws []int
+	for i := 0; i < nw; i++ {
+		sz := sizes[rng.Intn(len(sizes))]
+		if sz > 1000 && rng.Intn(2) == 0 {
+			sz = 1 + rng.Intn(300)
+		}
+		ws = append(ws, sz)
+	}
+	base := len(a2b.Written)
+	target := rng.Intn(2 * nw)
+	action := []string{"flip", "drop", "dup", "truncate", "inject-before", "swap-with-next", "replay-earlier", "reflect", "none"}[rng.Intn(9)]
+	var held []byte
+	var earlier [][]byte
+	a2b.Hook = func(idx int, p []byte) [][]byte {
+		rel := idx - base
+		defer func() { earlier = append(earlier, append([]byte{}, p...)) }()
+		if held != nil {
+			h := held
+			held = nil
+			return [][]byte{p, h}
+		}
+		if rel != target || len(p) == 0 {
+			return [][]byte{p}
+		}
+		switch action {
+		case "flip":
+			q := append([]byte{}, p...)
+			bit := rng.Intn(len(q) * 8)
+			q[bit/8] ^= 1 << (bit % 8)
+			return [][]byte{q}
+		case "drop":
+			return nil
+		case "dup":
+			return [][]byte{p, p}
+		case "truncate":
+			return [][]byte{p[:rng.Intn(len(p))]}
+		case "inject-before":
+			j := make([]byte, 1+rng.Intn(40))
+			rng.Read(j)
+			return [][]byte{j, p}
+		case "swap-with-next":
+			held = append([]byte{}, p...)
+			return nil
+		case "replay-earlier":
+			if len(earlier) > 0 {
+				return [][]byte{earlier[rng.Intn(len(earlier))], p}
+			}
+		case "reflect":
+			return [][]byte{reverse[rng.Intn(len(reverse))], p}
+		}
+		return [][]byte{p}
+	}
+	for i, sz := range ws {
+		data := eng.StreamBytes('c', len(stream), sz)
+		n, err := wconn.Write(data)
+		if err != nil || n != sz {
+			c.Shard.Inconc(fmt.Sprintf("conn slice: Write #%d of %d bytes returned (%d, %v)", i, sz, n, err))
+			return
+		}
+		stream = append(stream, data...)
+	}
+	if held != nil {
+		a2b.Inject(held)
+	}
+	a2b.Close()
+	bufs := []int{1, 2, 3, 17, 4096, 32767, 32768, 32769, 65535, 100000}
+	var got []byte
+	errs, reads := 0, 0
+	rep := map[string]any{"kind": "conn", "variant": variant, "writes": ws, "edit": fmt.Sprintf("%s at transport write %d", action, target)}
+	for errs < 4 && reads < 400000 {
+		buf := make([]byte, bufs[rng.Intn(len(bufs))])
+		n, err := rconn.Read(buf)
+		reads++
+		if n < 0 || n > len(buf) {
+			c.Shard.Violate("conn|read-count", fmt.Sprintf("%s: Read into %d bytes returned n=%d", variant, len(buf), n), rep)
+			return
+		}
+		got = append(got, buf[:n]...)
+		if len(got) > len(stream) || !bytes.Equal(got, stream[:len(got)]) {
+			c.Shard.Violate("conn|"+action, fmt.Sprintf("%s connection, %s at transport write %d of %d records %v: after %d reads the reader holds %d bytes that are not a prefix of the %d bytes the peer wrote (first difference at offset %d)", variant, action, target, nw, ws, reads, len(got), len(stream), firstDiff(got, stream)), rep)
+			return
+		}
+		if err != nil {
+			errs++
+		}
+	}
+	c.Shard.Count("conn_level_streams", 1)
+	c.Shard.Eval(fmt.Sprintf("conn|%s|%s|%d|%v", variant, action, target, ws))
+	if c.Idx%30 == 0 {
+		c.Shard.Sample(rep)
+	}
+}
+
 func runC02(c *mon.Case) {
+	if (c.Tier == "thorough" && c.Idx >= 6000) || (c.Tier != "thorough" && c.Idx >= 360) {
+		runC02Conn(c)
+		return
+	}
 	switch c.Idx % 3 {
 	case 0:
 		runC02Flips(c)
